@@ -266,7 +266,12 @@ def handleCall (j : Json) : Except String Json := do
   let forced := fun (sid : Nat) => match inst.scalars[sid]? with
     | some si => (si.decl.getObjVal? "forced").toOption.bind (·.getBool?.toOption) |>.getD false
     | none => false
-  let usedS := usedS0.map fun p => if forced p.1 then (p.1, true) else p
+  -- ... when the list itself is random in the call (after repair of F62: a random-size list inside a non-random
+  -- sub-object keeps its size)
+  let ownerUsed := fun (sid : Nat) => match inst.scalars[sid]? with
+    | some si => (match usedO.find? (fun q => q.1 == si.owner) with | some q => q.2 | none => false)
+    | none => false
+  let usedS := usedS0.map fun p => if forced p.1 && ownerUsed p.1 then (p.1, true) else p
   let toggles : Toggles ← cmHist.mapM fun (p, b, v) => do pure ((← resolveObj inst 0 p), b, v)
   let valsJ ← j.getObjVal? "values"
   -- fields: every scalar of the tree; random in the call iff used
@@ -318,7 +323,7 @@ def handleCall (j : Json) : Except String Json := do
   -- `ArrayConstraintBuilder` phase 0: a random-size list of objects cannot grow beyond the objects it holds
   -- (block `array_sz_c`, appended after every other constraint of the call)
   for p in usedS do
-    if forced p.1 then
+    if forced p.1 && p.2 then
       match inst.scalars[p.1]? with
       | some si =>
         let cap := (si.decl.getObjVal? "cap").toOption.bind (·.getNat?.toOption) |>.getD 0
